@@ -497,3 +497,5 @@ class Boss:
     S4_closed.upon(close, enter=S4_closed, outputs=[])
     S4_closed.upon(send, enter=S4_closed, outputs=[])
     S4_closed.upon(error, enter=S4_closed, outputs=[])
+    # an error while S3_closing took us here; the Terminator still finishes
+    S4_closed.upon(closed, enter=S4_closed, outputs=[])
